@@ -5,13 +5,26 @@ PROP = dict(
     stages=[dict(name="c20_math", src="harness/c20_math.cc")],
     rule=("exhaustive small-scope enumeration (all pairs in [0,300]^2 and boundary pairs for gcd/reduce_fraction in 8 integer "
           "types; every 8/16-bit value and every 2^k-1,2^k,2^k+1 for log2i, all 32-bit values in thorough; all Vector2/Vector3 pairs "
-          "over [-4,4]) plus rapidcheck-generated cases (boundary-biased operands, (lo,hi) ranges, random_data call sequences, "
-          "integer matrices in [-9,9], diagonally dominant double matrices). Non-trivial: gcd pairs with gcd>1 and both operands>1; "
+          "over [-4,4]) plus rapidcheck-generated cases (boundary-biased operands, (lo,hi) ranges, random_data call sequences "
+          "incl. requests of 2^12..2^18 +-1 bytes, integer matrices in [-9,9], diagonally dominant double matrices at global scales "
+          "2^-900..2^900 / 10^-270..10^270 - the residual M*inverse(M)-I is scale invariant, so the 1e-9 tolerance applies at every scale). "
+          "Every vector case also runs each scalar operator (compound and plain) with the operand being a reference to component j "
+          "of the left-hand vector itself (v op= v.x ...; expected value from a copy of the operand taken before the call) and "
+          "v += v / v -= v; every integer-matrix case runs the entrywise scalar operators +,-,*,/,% and their compound forms with an "
+          "independent scalar and with each of the 16 entries of the matrix itself as the operand. random_data_sig: random_data call "
+          "sequences (at least one request of 8 KiB..1 MiB) on a fresh thread while that thread receives SIGUSR2 (counting handler "
+          "installed with SA_RESTART, previous disposition restored afterwards) every 10..500 us; same oracle as random_data "
+          "(normal return - an exception is the clause random-data-threw -, guard bytes, no untouched run, size). "
+          "Non-trivial: gcd pairs with gcd>1 and both operands>1; "
           "log2i arguments adjacent to a power of two; random_int ranges wider than one value; random_data sequences of >=3 calls or "
-          ">4096 bytes; vector pairs that are distinct and non-zero; matrices other than the identity. Distinct = distinct case encodings (hash)."),
+          ">4096 bytes; random_data_sig cases in which at least one signal was delivered; vector pairs that are distinct and non-zero; "
+          "matrices other than the identity. Distinct = distinct case encodings (hash)."),
     assumptions=["non-negative operands for gcd/reduce_fraction", "random_int ranges with hi-lo < 2^63",
                  "integer matrices with entries in [-9,9] so that the double accumulation in Matrix4::operator* is exact",
-                 "random_data non-constancy tests have a false-alarm probability below 2^-120 per case"],
+                 "random_data non-constancy tests have a false-alarm probability below 2^-120 per case",
+                 "diagonally dominant double matrices are kept within global scales 2^-900..2^900 so that neither M nor inverse(M) leaves the normal double range",
+                 "random_data under signals: only handlers installed with SA_RESTART (the transparent kind; the framework's own SIGPROF watchdog is one); "
+                 "whether a signal lands inside a particular read is timing dependent, so a random_data_sig failure seen in a shard need not replay from the single case"],
     min_evaluations_quick=100000,
     technique="property-based testing: exhaustive small-scope enumeration + rapidcheck random generation against reference definitions (std::gcd, bit loops, 128-bit cross products, componentwise formulas)",
     level_text=("Exploration: every case runs the real templates (ASan+UBSan build of the working tree) against independent reference "
